@@ -79,6 +79,11 @@ func c13Values(rng *rand.Rand) []any {
 		nest = map[string]any{"d": []any{nest, i}}
 	}
 	vals = append(vals, nest)
+	// pre-encoded text around sizes at which an implementation might switch strategy (64 KiB, 1 MiB),
+	// laid out on many lines
+	for _, n := range []int{65536 / 5, 65536/5 + 40, 1048576/5 + 40} {
+		vals = append(vals, rawJSON("[\n"+strings.Repeat(" 17,\n", n)+"\t18 ]"))
+	}
 	for i := 0; i < 10; i++ {
 		vals = append(vals, json.RawMessage(randJSONValue(rng, 3)))
 	}
